@@ -702,6 +702,12 @@ def path_slice_cases():
     def harness(interp):
         ctx = interp.ctx
         b, c1, c2, s1, s2, s3, t1 = z3.BitVecs("bal_v code_v1 code_v2 st_v1 st_v2 st_v3 tr_v1", 256)
+        ts, num = z3.BitVec("timestamp_v", 64), z3.BitVec("number_v", 256)
+        import halmos.bitvec as hb_
+
+        # the block a frontier state carries: the timestamp is the symbol of the previous depth (constraints on it bound every later
+        # timestamp), the other fields are what the cheatcodes left there (terms or wrapped values)
+        block = NS(basefee=hb_.HalmosBitVec(0), chainid=z3.BitVecVal(31337, 256), coinbase=z3.BitVecVal(0, 160), difficulty=hb_.HalmosBitVec(0), gaslimit=z3.BitVecVal(2**63 - 1, 256), number=hb_.HalmosBitVec(num), timestamp=z3.ZeroExt(192, ts))
         a1, a2, a3 = z3.BitVecVal(0xA1, 160), z3.BitVecVal(0xA2, 160), z3.BitVecVal(0xA3, 160)
         arr = z3.Store(z3.K(z3.BitVecSort(160), z3.BitVecVal(0, 256)), a1, b)
 
@@ -723,14 +729,22 @@ def path_slice_cases():
         storage = {a1: NS(_mapping={(0, 0, 0): s1}), a2: NS(_mapping={(0, 0, 0): s2 + 1, (1, 0, 0): z3.BitVecVal(7, 256)}), a3: NS(_mapping={(5, 1, 0): z3.Store(z3.K(z3.BitVecSort(256), z3.BitVecVal(0, 256)), z3.BitVecVal(1, 256), s3)})}
         for this in (a1, a2, a3):
             got.clear()
-            ex = NS(balance=arr, code=code, storage=storage, transient_storage={a1: NS(_mapping={(0, 0, 0): t1})}, path=path, this=lambda this=this: this)
+            ex = NS(balance=arr, code=code, storage=storage, transient_storage={a1: NS(_mapping={(0, 0, 0): t1})}, path=path, this=lambda this=this: this, block=block)
             interp.call(hs.Exec.__dict__["path_slice"], [ex], {})
             want = {b, c1, c2, s1, s2, s3}
+            if len(got) == 1:
+                ctx.oblige("path_slice: the symbolic block values (timestamp, number, ...) are state variables too: the next transaction starts from this block", z3.BoolVal({ts, num} <= set(got[0])), info={"missing": [str(v) for v in {ts, num} - set(got[0])]})
             ctx.oblige("path_slice: Path.slice is called once", z3.BoolVal(len(got) == 1))
             if len(got) == 1:
                 ctx.oblige("path_slice: the state variables are those of the balance, of the symbolic code of every account and of the stored values of every account, whichever account ran last", z3.BoolVal(set(got[0]) >= want), info={"missing": [str(v) for v in want - set(got[0])]})
 
-    out.append(Case(f"{PROP}/sevm.Exec.path_slice", "three accounts: symbolic code in two, storage in three, balance", harness, replay=replay_script("slice_other_account.py", "two target contracts, A reads B's storage: call sequences B.set(x); A.sync()"), sources=("halmos.sevm:Exec.path_slice",)))
+    def replay_both(r):
+        a = replay_script("timestamp_constraints_merged.py", "f() requires block.timestamp > 100, g() requires <= 100, same storage effect; the invariant breaks only after g()")(r)
+        if a.get("reproduced"):
+            return a
+        return replay_script("slice_other_account.py", "two target contracts, A reads B's storage: call sequences B.set(x); A.sync()")(r)
+
+    out.append(Case(f"{PROP}/sevm.Exec.path_slice", "three accounts: symbolic code in two, storage in three, balance, block", harness, replay=replay_both, sources=("halmos.sevm:Exec.path_slice",)))
     return out
 
 
